@@ -292,6 +292,8 @@ class TruncatedGaussianPDF(TruncatedGaussianMeasure):
 
     def __post_init__(self):
         super(TruncatedGaussianPDF, self).__post_init__()
+        # Evaluate the normalised density: a measure with non-unit mass would scale the values.
+        self.measure = self.density
         self.constant = self._expectation_integral()
         self.constant = 1.0 / self.constant
 
